@@ -179,8 +179,9 @@ def refs_check(h, out_text):
     h.check(not unused, "refs.no_unused_gradient_in_defs", detail=unused)
 
 
-def canon(text):
-    """(structure signature, list of numeric tokens) of a document"""
+def canon(text, ordered=False):
+    """(structure signature, list of numeric tokens) of a document; ordered=True keeps the
+    attributes in document order (byte-level properties: C16)"""
     root = parse_full(text)
     sig, nums = [], []
 
@@ -189,7 +190,7 @@ def canon(text):
             sig.append("#node")
             return
         sig.append("<" + local(e.tag))
-        for a in sorted(e.attrib):
+        for a in (list(e.attrib) if ordered else sorted(e.attrib)):
             v = e.attrib[a]
             toks = NUM_TOKEN.findall(v) if a not in ("id", "fill", "stop-color", "offset") or PH_OPEN in v else []
             if a == "offset":
@@ -205,10 +206,10 @@ def canon(text):
     return sig, nums
 
 
-def same_document(h, a_text, b_text, label):
+def same_document(h, a_text, b_text, label, ordered=False):
     """same XML structure and attribute names, every number provably equal"""
-    sa, na = canon(a_text)
-    sb, nb = canon(b_text)
+    sa, na = canon(a_text, ordered)
+    sb, nb = canon(b_text, ordered)
     if sa != sb or len(na) != len(nb):
         diff = next((i for i, (x, y) in enumerate(zip(sa, sb)) if x != y), min(len(sa), len(sb)))
         return h.check(False, label + ".structure", detail={"first_difference": [sa[max(0, diff - 2) : diff + 3], sb[max(0, diff - 2) : diff + 3]]})
